@@ -1,6 +1,6 @@
 (* BulkCheck.v — executable comparison of the HandleBulkBody model with observations
    of the real function (used by the generated case files of C15). *)
-From SigM Require Import Base Bulk.
+From SigM Require Import Base Bulk BulkPool.
 Open Scope N_scope.
 
 Definition L := mkLine.
@@ -43,4 +43,26 @@ Fixpoint check (cases : list (list N * list line * obs)) (i : nat) : list nat :=
   | [] => []
   | (bad, b, o) :: r =>
     (if agrees bad b o && self_check bad b then [] else [i]) ++ check r (S i)
+  end.
+
+(* ---- a bulk request served after other ingest requests of the same process (stream
+   "after_other_ingest"): the history since the pools were last emptied is part of the
+   case; [P proto docs] is a request of that entry point as the unchanged code releases
+   its objects ---- *)
+Definition P (p : proto) (ds : list (N * N * bool)) : hev := HReq (preq p ds).
+
+Definition agrees_after (h : list hev) (bad : list N) (b : list line) (o : obs) : bool :=
+  let r := handle_after h (store_of bad) b in
+  list_eqb N.eqb (r_items r) (o_items o) &&
+  Bool.eqb (r_errors r) (o_errors o) &&
+  (r_processed r =? o_processed o) &&
+  Bool.eqb (r_allfailed r) (o_allfailed o) &&
+  same_multiset (r_stored r) (o_found o).
+
+Fixpoint check_hist (cases : list (list hev * list N * list line * obs)) (i : nat) : list nat :=
+  match cases with
+  | [] => []
+  | (h, bad, b, o) :: r =>
+    (if forallb disciplined_ev h && agrees_after h bad b o && self_check bad b then [] else [i])
+    ++ check_hist r (S i)
   end.
